@@ -52,38 +52,67 @@ Theorem C31_column_sound : forall pf i2f raw, col_sound pf i2f raw (infer_column
 Proof. exact column_sound. Qed.
 Print Assumptions C31_column_sound.
 
-(* Time conversion of an integer epoch with an explicit unit is exact whenever the exact result
-   is representable (no-overflow guard: n * scale fits in int64) ... *)
-Theorem C31_time_exact : forall p n f,
-  in_int64 (n * scale_of p f) ->
-  match f with
-  | EpochS | EpochMs | EpochUs => int_time_to_micros p n f = n * scale_of p f
-  | EpochNs => int_time_to_micros p n f = Z.quot n (div_ns p)
-  | _ => True
+(* Time conversion (after fix b90d6d7).  An integer epoch with an explicit unit either converts
+   EXACTLY or is rejected, and it is rejected exactly when its microseconds do not fit int64 ... *)
+Theorem C31_time_checked : forall p n f,
+  0 < mul_s p -> 0 < mul_ms p ->
+  match int_time_checked p n f with
+  | Some t => match f with
+              | EpochS | EpochMs | EpochUs => t = n * scale_of p f /\ in_int64 (n * scale_of p f) \/ f = EpochUs /\ t = n
+              | EpochNs => t = Z.quot n (div_ns p)
+              | _ => t = auto_int p n
+              end
+  | None => (f = EpochS \/ f = EpochMs) /\ ~ in_int64 (n * scale_of p f)
   end.
-Proof. exact time_exact. Qed.
-Print Assumptions C31_time_exact.
+Proof. exact int_time_checked_spec. Qed.
+Print Assumptions C31_time_checked.
 
-(* ... and the magnitude-detected path is exact for EVERY int64 (it cannot overflow), for any
-   constants satisfying [good_params] (checked for the regenerated ones in Obligations.v). *)
+(* ... the magnitude-detected path is exact for EVERY int64 (it cannot overflow), for any
+   constants satisfying [good_params] (checked for the regenerated ones in Obligations.v) ... *)
 Theorem C31_auto_exact : forall p n,
   good_params p = true -> in_int64 n -> auto_int p n = exact_int_time p Auto n.
 Proof. exact auto_exact. Qed.
 Print Assumptions C31_auto_exact.
 
-(* REFUTED without the guard: `n * 1_000_000` wraps.  9223372036855 s (the first epoch_s value
-   whose microseconds exceed MaxInt64) is accepted and stored as a NEGATIVE time; every smaller
-   non-negative value is exact. *)
-Theorem C31_time_overflow_refuted :
-  in_int64 9223372036855 /\
-  int_time_to_micros default_tparams 9223372036855 EpochS = -9223372036854551616 /\
-  int_time_to_micros default_tparams 9223372036855 EpochS <> 9223372036855 * 1000000 /\
-  (forall n, 0 <= n < 9223372036855 -> int_time_to_micros default_tparams n EpochS = n * 1000000).
-Proof.
-  split; [unfold in_int64, two63; lia|]. split; [vm_compute; reflexivity|]. split; [vm_compute; discriminate|].
-  intros n H. apply (time_exact default_tparams n EpochS). unfold in_int64, two63. cbn. lia.
-Qed.
-Print Assumptions C31_time_overflow_refuted.
+(* ... so, with NO overflow guard: in every accepted upload the stored time of every data row is
+   the requested conversion of its time cell - for an integer epoch exactly n * unit (or the
+   magnitude-detected unit), for fractional / textual values the oracle's answer. *)
+Theorem C31_accepted_times_exact : forall pf i2f fl_epoch ttext p q b,
+  good_params p = true -> import_csv pf i2f fl_epoch ttext p q = inr b ->
+  exists h0 rows ti,
+    skipn (q_skip q) (q_records q) = h0 :: rows /\
+    validate_header (header_of h0) (q_time_column q) = inr ti /\
+    Forall2 (time_cell_ok fl_epoch ttext p (q_fmt q))
+            (column_of (map (fit (length (header_of h0))) rows) ti) (b_time b).
+Proof. exact import_times_exact. Qed.
+Print Assumptions C31_accepted_times_exact.
+
+(* An upload with an integer epoch whose microseconds overflow int64 under epoch_s / epoch_ms is
+   rejected as a whole (time-parse error), whatever the other cells are ... *)
+Theorem C31_time_overflow_rejected : forall fl_epoch ttext p f raw s n,
+  0 < mul_s p -> 0 < mul_ms p ->
+  In s raw -> has_dot (trim s) = false -> parse_int (trim s) = Some n -> (f = EpochS \/ f = EpochMs) ->
+  ~ in_int64 (n * scale_of p f) ->
+  strings_to_time_micros fl_epoch ttext p f raw = None.
+Proof. exact time_cells_reject. Qed.
+Print Assumptions C31_time_overflow_rejected.
+
+(* ... in particular the former witness (epoch_s = 9223372036855, which used to be stored at
+   -9223372036854551616 us) is rejected and writes nothing; 9223372036854 is still accepted. *)
+Definition overflow_request (t : bytes) : request :=
+  {| q_time_column := name_time; q_fmt := EpochS; q_skip := 0; q_delim_runes := 1;
+     q_records := [ [name_time; [118]%N]; [t; [49]%N] ]; q_csv_err := false |}.
+Definition no_oracle (s : bytes) : option Z := None.
+
+Theorem C31_overflow_witness_rejected :
+  let big := [57; 50; 50; 51; 51; 55; 50; 48; 51; 54; 56; 53; 53]%N in          (* 9223372036855 *)
+  let ok := [57; 50; 50; 51; 51; 55; 50; 48; 51; 54; 56; 53; 52]%N in           (* 9223372036854 *)
+  import_csv no_oracle (fun n => n) no_oracle no_oracle default_tparams (overflow_request big) = inl RTimeParse /\
+  import_writes no_oracle (fun n => n) no_oracle no_oracle default_tparams (overflow_request big) = [] /\
+  exists bt, import_csv no_oracle (fun n => n) no_oracle no_oracle default_tparams (overflow_request ok) = inr bt /\
+             b_time bt = [9223372036854000000].
+Proof. cbv zeta. split; [vm_compute; reflexivity|]. split; [vm_compute; reflexivity|]. eexists. vm_compute. split; reflexivity. Qed.
+Print Assumptions C31_overflow_witness_rejected.
 
 (* All-or-nothing: a rejected upload writes nothing; an accepted one performs exactly one write
    that carries every data row.  (A failing flush after that write is the only partial outcome
@@ -115,8 +144,6 @@ Print Assumptions C31_stored_lossless_guarded.
 
 (* REFUTED without the guards.  (1) a column whose name starts with '_' is accepted, counted in
    the response, and not stored. *)
-Definition no_oracle (s : bytes) : option Z := None.
-Definition b (s : list N) : bytes := s.
 Definition underscore_witness : request :=
   {| q_time_column := name_time; q_fmt := Auto; q_skip := 0; q_delim_runes := 1;
      q_records := [ [name_time; [95; 104]%N; [118]%N];                      (* time,_h,v *)
@@ -156,8 +183,25 @@ Theorem C31_parquet_uint64_refuted :
 Proof. split; [cbn; unfold two64; lia|vm_compute; reflexivity]. Qed.
 Print Assumptions C31_parquet_uint64_refuted.
 
-(* Arrow TIMESTAMP columns: exact by unit under the same no-overflow guard ... *)
-Theorem C31_arrow_ts_exact : forall p v u,
+(* The TIME column of a Parquet file (Arrow TIMESTAMP, after b90d6d7): exact by unit, or rejected -
+   exactly when the microseconds do not fit int64. *)
+Theorem C31_arrow_ts_checked : forall p v u,
+  0 < mul_s p -> 0 < mul_ms p ->
+  match arrow_ts_checked p v u with
+  | Some t => match u with
+              | USecond => t = v * mul_s p /\ in_int64 (v * mul_s p)
+              | UMilli => t = v * mul_ms p /\ in_int64 (v * mul_ms p)
+              | UMicro => t = v
+              | UNano => t = Z.quot v (div_ns p)
+              end
+  | None => (u = USecond /\ ~ in_int64 (v * mul_s p)) \/ (u = UMilli /\ ~ in_int64 (v * mul_ms p))
+  end.
+Proof. exact arrow_ts_checked_spec. Qed.
+Print Assumptions C31_arrow_ts_checked.
+
+(* A NON-time TIMESTAMP column still goes through the unchecked arrowTimestampToMicros: exact under
+   the no-overflow guard ... *)
+Theorem C31_arrow_ts_column_exact : forall p v u,
   match u with
   | USecond => in_int64 (v * mul_s p) -> arrow_ts_to_micros p v u = v * mul_s p
   | UMilli => in_int64 (v * mul_ms p) -> arrow_ts_to_micros p v u = v * mul_ms p
@@ -165,13 +209,13 @@ Theorem C31_arrow_ts_exact : forall p v u,
   | UNano => arrow_ts_to_micros p v u = Z.quot v (div_ns p)
   end.
 Proof. exact arrow_ts_exact. Qed.
-Print Assumptions C31_arrow_ts_exact.
+Print Assumptions C31_arrow_ts_column_exact.
 
-(* ... and wrapping without it. *)
-Theorem C31_arrow_ts_overflow_refuted :
+(* ... and wrapping without it (not covered by b90d6d7). *)
+Theorem C31_arrow_ts_column_overflow_refuted :
   in_int64 9223372036855 /\ arrow_ts_to_micros default_tparams 9223372036855 USecond = -9223372036854551616.
 Proof. split; [unfold in_int64, two63; lia|vm_compute; reflexivity]. Qed.
-Print Assumptions C31_arrow_ts_overflow_refuted.
+Print Assumptions C31_arrow_ts_column_overflow_refuted.
 
 (* ---- non-vacuity --------------------------------------------------------------------- *)
 
